@@ -17,7 +17,8 @@
     injectors last) is explored for <=2 definitions and replayed with structs built by
     reflection, once with and once without the extra map injector's key: which fields
     are set, with which instance, the result, and that nothing after an aborting
-    field is touched.
+    field is touched (what a FAILED InjectTo leaves in the fields resolved before the
+    failure is not fixed by the statement: the instance or nothing, never another one).
     A third bound gives ONE factory two dependencies (every pair of required / optional
     edges over 3 names with explicit factories, every failing subset, every request): a
     tolerated failure followed by a sibling request, and cycles through the second edge.
